@@ -348,9 +348,9 @@ RetStep(m, ev) ==
                   ELSE (IF TagTruthy(tg[1]) THEN Bad(m, "C14:reply-decode") ELSE Good(m))
         ELSE IF ~TagTruthy(tg[1]) THEN Bad(m, "C13:failure-on-success")
         ELSE IF tg[1].value = [b |-> m.last.data] THEN Good(m) ELSE Bad(m, "C14:reply-value")
-    ELSE IF api \in {"get_plc_info", "get_module_info", "_list_identity"} THEN
+    ELSE IF api \in {"get_plc_info", "get_module_info", "_list_identity", "list_identity"} THEN
         (IF ev.outcome # "value" THEN (IF ev.faulted = 1 THEN Good(m) ELSE Bad(m, "C16:exception"))
-         ELSE LET c == IdentityClause(m.ident, ev.result.value, api = "_list_identity") IN IF c = "" THEN Good(m) ELSE Bad(m, c))
+         ELSE LET c == IdentityClause(m.ident, ev.result.value, api \in {"_list_identity", "list_identity"}) IN IF c = "" THEN Good(m) ELSE Bad(m, c))
     ELSE IF api = "get_plc_name" THEN
         (IF ev.outcome # "value" THEN (IF ev.faulted = 1 THEN Good(m) ELSE Bad(m, "C14:helper-exception"))
          ELSE IF m.lx.on /\ ev.result.value # MkS(m.lx.P.name) THEN Bad(m, "C14:reply-decode") ELSE Good(m))
@@ -399,7 +399,7 @@ Step(m, ev) ==
                                  ELSE LxCall(m.lx, ev)])
       [] ev.k = "socknew" -> Good(m)
       [] ev.k = "mutated" ->                               \* a result returned earlier was changed by a later call
-           Bad(m, CASE ev.api \in {"_list_identity", "get_module_info", "get_plc_info"} -> "C16:result-mutated"
+           Bad(m, CASE ev.api \in {"_list_identity", "list_identity", "get_module_info", "get_plc_info"} -> "C16:result-mutated"
                     [] ev.api = "read" -> "C01:result-mutated"
                     [] ev.api = "write" -> "C02:result-mutated"
                     [] OTHER -> "C14:result-mutated")
